@@ -158,6 +158,16 @@ def enabled_ops(live, b):
         for ub, cb, su in FLAGS3:
             ops.append(("reseed_at", i, ub, cb, su))
             ops.append(("reroot_at_node", i, ub, su, cb))
+    # leaves as targets: the docstrings speak of an internal node, but the code has a branch for
+    # leaves and "all choices of target node" quantifies over them too
+    for i in leaves:
+        if nodes[i]._parent_node is None:
+            continue
+        for ub, cb, su in FLAGS3:
+            # the leaf becomes the seed: its taxon is then on an internal node by design, so the
+            # leaf-taxon multiset is not judged for these targets; everything else is
+            ops.append(("reseed_at", i, ub, cb, su, "leaf-target"))
+            ops.append(("reroot_at_node", i, ub, su, cb, "leaf-target"))
     for i in internal:
         nd = nodes[i]
         if nd._parent_node is None:
@@ -296,8 +306,12 @@ def apply_op(live, op):
     removed = []
     added = []
     if name == "reseed_at":
+        if len(op) > 5:
+            removed = None
         t.reseed_at(nodes[op[1]], update_bipartitions=op[2], collapse_unrooted_basal_bifurcation=op[3], suppress_unifurcations=op[4])
     elif name == "reroot_at_node":
+        if len(op) > 5:
+            removed = None
         t.reroot_at_node(nodes[op[1]], update_bipartitions=op[2], suppress_unifurcations=op[3], collapse_unrooted_basal_bifurcation=op[4])
     elif name == "reroot_at_edge":
         t.reroot_at_edge(nodes[op[1]]._edge, length1=op[2], length2=op[3], update_bipartitions=op[4], suppress_unifurcations=op[5])
@@ -490,6 +504,10 @@ def step(h, op, ctx, b):
             return None
         if ub and before_enc == "current":
             ctx.count("update_contract_checked")
+    if op[-1] == "leaf-target":
+        # state with a taxon-bearing seed: checked above, not expanded (the leaf-taxon oracle of later steps assumes taxa sit on leaves)
+        ctx.count("leaf_target_calls_checked")
+        return None
     if name.startswith("refused:"):
         # the state a refused call leaves behind is checked above (well formed, traversable); it is not expanded further
         ctx.count("refused_calls_checked" if exc is not None else "refused_calls_that_completed")
